@@ -1,6 +1,26 @@
 ALL = ["C%02d" % i for i in range(1, 21)]
 
 CLAIMED = {
+    "C08": dict(
+        text="Lean 4 theorems over an executable model of the admission path of a Nibiru precompile call (the fork's "
+             "runPrecompiledContract, requiredGas, decomposeInput, the Run switches with each handler's first guard, the places where a "
+             "Go panic can start: slice expressions on the calldata window, sdk.NewCoin on a caller-supplied denom, the string-key index "
+             "lookup, an out-of-gas panic without handler): for every calldata length and capacity, selector, decodability, call kind, "
+             "value and gas amount no call ends in a panic; every state-changing method of the three precompiles is refused under the "
+             "read-only flag the fork passes for STATICCALL/DELEGATECALL/CALLCODE; FunToken/Wasm query handlers refuse value; gas handed "
+             "back never exceeds gas supplied. The guard tables (isMutation literal, per-case handler and first guard, out-of-gas defers, "
+             "length check, denom validation before panicking constructors) are regenerated from the source on every run and consumed "
+             "by the theorems. Counterexample theorems for the four in-repo panics (repaired by fix: commits 257b492, 64c321d, ceb8798, "
+             "84bc100) and for the nested-static gap of the fork (known finding C08-nested-static). Correspondence at two levels: "
+             "RunPrecompiledContract with controlled len/cap (model vs implementation, stage by stage) and signed txs through proxy "
+             "contracts with every call kind (oracle: panics, catchability, store digests, gas).",
+        note="PARTIAL: geth's ABI decoder and the business logic behind the guards (bank, wasm, ERC20 calls) are parameters of the model; "
+             "that they never panic rests on generated inputs only. 'Leaves no state change behind' for reverted frames is the "
+             "PrecompileCalled theorem of C04 (with C04's known findings). Trusted: Lean kernel; extractor; harness incl. the proxy "
+             "contract and store digests.",
+        technique="Lean 4 proof (case analysis of the admission path over regenerated guard tables; decide on closed tables) + "
+                  "regenerated facts (translator) + differential correspondence + property oracle over EVM-level runs",
+        ref="§7 C08"),
     "C14": dict(
         text="Lean 4 theorems over an executable model of x/epochs BeginBlocker/AddEpochInfo, for every history of block times and every "
              "epoch definition: advance-iff, at most one advance per block, monotone epoch number, complete hook trace "
